@@ -326,7 +326,13 @@ def run_case(case, ctx, pool_kind):
                         reads[int(fid)] = reads.get(int(fid), 0) + 1
         if on_content:
             if error is None:
-                ctx.check(all(reads.get(i, 0) == 1 for i in ids)
+                # members of a bundle whose reading failed may stay unread
+                # (the remaining reads of that bundle are cancelled)
+                optional = {i for u in (bundles or []) for i in u
+                            if any(j in case["fail_read"] for j in u)}
+                ctx.check(all(reads.get(i, 0) == 1 for i in ids
+                              if i not in optional)
+                          and all(reads.get(i, 0) <= 1 for i in optional)
                           and set(reads) <= set(ids),
                           "reads/not-exactly-once", lambda: (
                               "reads=%r; %s" % (reads, where())))
